@@ -125,6 +125,7 @@ pub fn lines_strategy() -> impl Strategy<Value = InputCase> {
             ">> [mode]: [-é-]   bad", ">> [bogus]: [- ö -]  v", ">> servings: [- é -]   x", ">>  [- é -]  [mode] : steps", ">> time:  [-é-] soon  [- ü -] ",
             ">> [define]: steps [- ñ -]  ", ">> [duplicate]:[-é-] new", "== sec == [- a -] -- b", "= sec = [- a -] [- b -]", "== sec ==[- é -][- ö -]",
             "@\u{a0}{}", "#\u{2009}{}", "@salt|\u{3000}{}", "~\u{a0}{}", ">>\u{a0}: v", "@\u{a0}salt\u{a0}{1%kg}", "to \u{2212}5 degrees", "a\0b", "x \0 y", "\0",
+            "@a{} @&a{}(-- é\nx)", "@a{}(-- é\nx) @&a{}(y)", "#b{}([- ü -]x)\n#&b{}([-é-]y)", "@a{1%kg}(-- 😀\n) @&a(-- é\n z)", "~t{5%min}(-- é\nx)",
             ">> serves: 4", ">> yield: 6|12", "@x{.05%g}", "@x{.05-.1%g}", "@x{.5 g}", "[---]", "[- x --] y", "[- a - b -]",
         ]).prop_map(|s| s.to_string()),
         // many old-style entries (the deprecation warning gets one label per entry)
